@@ -1,5 +1,186 @@
+import NA.Spec.SessFault
 import NA.Core.IOUtil
-/-! Driver stub for C09 (not built yet): echoes its input. -/
+/-!
+Driver for C09: runs the session program of one backend against a simulated device with one
+injected fault and prints the trace and the derived status.
+
+Input (tab separated):
+  backend  mode  shape  planGenuine  planEmpty  iptGenuine  iptEmpty  faultPos  faultKind  prevDiff  fuel
+  backend ∈ ASA IOS Linux PAN-OS NSX;  mode ∈ approve compare;  shape: k=v,k=v (yesno enablepw pageroff
+  width511 saveask overwrite nochanges pend);  plans: packets separated by '|', the two lines of a joined
+  packet by '~';  faultPos = -1: no fault;  prevDiff: the status file already says compare DIFF.
+Output: key=value fields separated by blanks, see `answer`.
+-/
+namespace NA.Drv.C09
+open NA.Sess NA.Apply NA.Spec.C09 NA.IOUtil
+
+structure Shape where
+  yesno : Bool := false
+  enablepw : Bool := false
+  pageroff : Bool := false
+  width511 : Bool := false
+  saveask : Bool := false
+  overwrite : Bool := false
+  nochanges : Bool := false
+  pend : Nat := 0
+
+def parseShape (s : String) : Shape := Id.run do
+  let mut sh : Shape := {}
+  for kv in splitComma s do
+    match kv.splitOn "=" with
+    | [k, v] =>
+      let n := v.toNat?.getD 0
+      match k with
+      | "yesno" => sh := { sh with yesno := n != 0 }
+      | "enablepw" => sh := { sh with enablepw := n != 0 }
+      | "pageroff" => sh := { sh with pageroff := n != 0 }
+      | "width511" => sh := { sh with width511 := n != 0 }
+      | "saveask" => sh := { sh with saveask := n != 0 }
+      | "overwrite" => sh := { sh with overwrite := n != 0 }
+      | "nochanges" => sh := { sh with nochanges := n != 0 }
+      | "pend" => sh := { sh with pend := n }
+      | _ => pure ()
+    | _ => pure ()
+  return sh
+
+def parsePlan (s : String) : List (List String) := (splitBar s).map (·.splitOn "~")
+
+def parseBackend : String → Option Backend
+  | "ASA" => some .asa | "IOS" => some .ios | "Linux" => some .linux
+  | "PAN-OS" => some .panos | "NSX" => some .nsx | _ => none
+
+def linesOf (tr : List Ev) : List String :=
+  tr.foldr (fun e acc => match e with | .sent _ ls => ls ++ acc | _ => acc) []
+
+def gotCount (tr : List Ev) : Nat := tr.foldl (fun n e => match e with | .got _ _ => n + 1 | _ => n) 0
+
+/-- the conforming reply to line `l` (the `g`-th line; `prev` = the line before it) -/
+def niceReply (b : Backend) (sh : Shape) (g : Nat) (l prev : String) (polls : Nat) : Reply :=
+  let fl (fs : List Flag) (arr : Arr := .full) : Reply := { arr := arr, flags := fs }
+  match b with
+  | .asa | .ios =>
+    if g == 0 then (if sh.yesno then fl [.yesNo] .noPrompt
+                    else fl (if b == .asa then [.password, .bannerOk] else [.password]) .noPrompt)
+    else if l == "yes" then fl (if b == .asa then [.password, .bannerOk] else [.password]) .noPrompt
+    else if l == "<secret>" then
+      (if prev == "enable" then fl [.hash] else fl (if b == .ios then [.gt, .bannerOk] else [.gt]) .noPrompt)
+    else if l == "enable" then (if sh.enablepw then fl [.password] .noPrompt else fl [.hash])
+    else if l == "" then
+      (if prev == "write memory" then fl [.okMark, .hash] else fl [.hash, .nameOk])
+    else if l == "sh pager" then fl (if sh.pageroff then [.noPager] else [])
+    else if l == "sh term" then fl (if sh.width511 then [.w511] else [])
+    else if l == "show hostname" then fl [.nameOk]
+    else if l == "write term" || l == "sh run" then fl [.cfgGenuine, .cfgParses]
+    else if l == "write memory" then
+      (if b == .ios && sh.overwrite then fl [.overwrite, .confirm] .noPrompt else fl [.okMark])
+    else if l == "reload in 2" || l == "do reload in 2" then
+      (if sh.saveask then fl [.saveAsk] .noPrompt else fl [.confirm] .noPrompt)
+    else if l == "n" then fl [.confirm] .noPrompt
+    else if l == "reload cancel" then fl [.aborted]
+    else fl []
+  | .linux =>
+    if g == 0 then (if sh.yesno then fl [.yesNo] .noPrompt else fl [.hash])
+    else if l == "yes" then fl [.hash]
+    else if l == "PS1=router#" then fl [.hash]
+    else if l == "hostname -s" then fl [.nameOk]
+    else if l == "echo $?" then fl [.status0]
+    else if l == "which iptables-restore" then fl [.restorePath]
+    else if l == "iptables-save" || l == "ip route show" then fl [.cfgGenuine, .cfgParses]
+    else fl []
+  | .panos =>
+    if l == "keygen" then fl [.keyOk]
+    else if l == "show ha" then fl [.haActive]
+    else if l == "get config" then fl [.cfgGenuine, .cfgParses, .nameOk]
+    else if l == "commit" then (if sh.nochanges then fl [.noChanges] else fl [.msgEmpty, .wellFormed])
+    else if l == "show jobs" then (if polls < sh.pend then fl [.pend, .wellFormed] else fl [.jobOk, .wellFormed])
+    else fl []
+  | .nsx => fl [.cfgGenuine, .cfgParses]
+
+def faultReply (b : Backend) (kind : String) (nice : Reply) (g : Nat) : Reply :=
+  match kind with
+  | "errtext" =>
+    if b == .panos then { parses := false }
+    else if b == .nsx then { status200 := false }
+    else if g == 0 then { out := .text } else { out := .text, flags := [.hash] }
+  | "unexpected" => if g == 0 then { out := .text } else { out := .text, flags := [.hash] }
+  | "warntext" => { out := .warning, flags := [.hash] }
+  | "infotext" => { out := .info, flags := [.hash] }
+  | "garbled" => { nice with echoOk := false }
+  | "silence" => { arr := .silent }
+  | "truncated" =>
+    if g == 0 then { arr := .silent }
+    else if nice.arr == .noPrompt then nice else { nice with arr := .noPrompt }
+  | "close" => { arr := .closed }
+  | "httpstatus" => { status200 := false }
+  | "malformed" => { parses := false }
+  | "jobfail" => { flags := [.wellFormed] }
+  | _ => nice
+
+def mkDev (b : Backend) (sh : Shape) (pos : Option Nat) (kind : String) : Dev := fun tr =>
+  let g := gotCount tr
+  let ls := linesOf tr
+  let l := if g == 0 then "" else ls.getD (g - 1) ""
+  let prev := if g < 2 then "" else ls.getD (g - 2) ""
+  let polls := ((ls.take (g - 1)).filter (· == "show jobs")).length
+  let nice := niceReply b sh g l prev polls
+  match pos with
+  | none => nice
+  | some p =>
+    if g == p then faultReply b kind nice g
+    else if g > p && b != .panos && b != .nsx then
+      (if kind == "silence" || kind == "truncated" then { arr := .silent }
+       else if kind == "close" then { arr := .closed } else nice)
+    else nice
+
+def showRole : Role → String
+  | .login => "login" | .setup => "setup" | .read => "read" | .change => "change"
+  | .probe => "probe" | .save => "save" | .cleanup => "cleanup"
+
+def b2s (b : Bool) : String := if b then "1" else "0"
+
+def showSends (tr : List Ev) : String :=
+  ";".intercalate (tr.filterMap fun e => match e with
+    | .sent ρ ls => some (showRole ρ ++ ":" ++ "~".intercalate ls)
+    | _ => none)
+
+/-- index (number of lines on the wire) at which the first reply that is bad was read; -1 if none -/
+def firstBadAt (bad : Role → Reply → Bool) (tr : List Ev) : Int := Id.run do
+  let mut g : Nat := 0
+  for e in tr do
+    match e with
+    | .got ρ r => if bad ρ r then return g else g := g + 1
+    | _ => pure ()
+  return -1
+
+def answer (line : String) : String :=
+  match splitTab line with
+  | [bs, mode, shape, pg, pe, ig, ie, fp, kind, prevDiff, fuel] =>
+    match parseBackend bs with
+    | none => "bad-backend"
+    | some b =>
+      let sh := parseShape shape
+      let planG := parsePlan pg
+      let planE := parsePlan pe
+      let pos : Option Nat := fp.toNat?
+      let env : Env := {
+        dev := mkDev b sh pos kind
+        plan := fun g => if g then planG else planE
+        planIpt := fun g => if g then ig == "1" else ie == "1"
+        compare := mode == "compare"
+        simulated := true
+        fuel := fuel.toNat?.getD 50 }
+      let s := runProg b env
+      let prev : Status := if prevDiff == "1" then
+        { approve := ⟨"OK", "p0", 1727000000⟩, compare := ⟨"DIFF", "p0", 1727000001⟩ } else {}
+      let o := doApprove env.compare prev "p1" 1727626790 s.tr (exitCode s)
+      let scps := ",".intercalate (s.tr.filterMap fun e => match e with | .scp w => some w | _ => none)
+      let res := if env.compare then o.status.compare.result else o.status.approve.result
+      let pol := if env.compare then o.status.compare.policy else o.status.approve.policy
+      s!"dexit={exitCode s} exit={o.exit} status={res}/{pol} end={o.endMsg} err={b2s (s.tr.contains .logErr)} warn={b2s (s.tr.contains .logWarn)} chg={b2s (s.tr.contains .logChanged)} diverge={b2s (s.mode == .diverge)} scp={scps} ff={firstBadAt (badFull b) s.tr} fc={firstBadAt (badChecked b) s.tr} sf={b2s (safe (badFull b) s.tr)} sc={b2s (safe (badChecked b) s.tr)} saved={b2s (saveConfirmed s.tr)} sends={showSends s.tr}"
+  | _ => "bad-input"
+
+end NA.Drv.C09
+
 def main (_ : List String) : IO UInt32 := do
-  NA.IOUtil.eachLine id
+  NA.IOUtil.eachLine NA.Drv.C09.answer
   return 0
